@@ -12,7 +12,7 @@ Inductive site_class :=
 
 (* model name -> the site function of Det/Sites.v it stands for *)
 Definition known_models : list string :=
-  [ "imported_decls"; "imported_decls_fixed";
+  [ "imported_decls"; "imported_decls_fixed"; "imported_decls_maporder";
     "check_call_args"; "resolve_call_args"; "check_struct_args"; "resolve_struct_args";
     "check_call_args_fixed"; "resolve_call_args_fixed"; "check_struct_args_fixed"; "resolve_struct_args_fixed";
     "unify_report"; "unify_report_fixed";
